@@ -489,6 +489,51 @@ class Flow:
                                   "body only inserts into maps/sets, steps counters, continues or returns Err"))
 
     def result_only_selects_err(self, body, bb, t):
+        if self._result_only_selects_err_plain(body, bb, t):
+            return True
+        # the Err may be built into a local first (a per-step `verdict` handed to `?` afterwards): judge the Some edge path-sensitively -
+        # every feasible path from it ends in an error return of the function
+        if t["dst"]["p"]:
+            return False
+        holders = {t["dst"]["l"]}
+        changed = True
+        while changed:
+            changed = False
+            for h in list(holders):
+                for (ub, idx, node) in uses_of_local(body, h):
+                    if idx >= 0 and node["k"] == "assign" and not node["dst"]["p"] and node["rv"]["k"] == "use":
+                        q = op_place(node["rv"]["op"])
+                        if q is not None and q["l"] == h and not q["p"] and node["dst"]["l"] not in holders:
+                            holders.add(node["dst"]["l"])
+                            changed = True
+        some_e = [(e, tb) for (e, tb, fa) in body.all_edge_facts() if fa[0] == "variant" and fa[1]["l"] in holders and not fa[1]["p"] and fa[2] == "Some"]
+        if not some_e:
+            return False
+        if not body.ps:
+            body.enable_path_sensitivity()
+        if not all(body._is_err_return_path(e[0], tb, set(), e[1], root=True) for (e, tb) in some_e):
+            return False
+        err_region = set()
+        for (e, tb) in some_e:
+            err_region |= body.reach_between(tb)
+        for h in holders:
+            for (ub, idx, node) in uses_of_local(body, h):
+                if ub not in body.reach or ub in err_region:
+                    continue
+                if idx == -1:
+                    if node["k"] in ("drop", "switch"):
+                        continue
+                    return False
+                if node["k"] == "assign":
+                    rv = node["rv"]
+                    if rv["k"] == "discr":
+                        continue
+                    if rv["k"] == "use" and op_place(rv["op"]) and not op_place(rv["op"])["p"] and node["dst"]["l"] in holders:
+                        continue
+                    return False
+        return True
+
+    def _result_only_selects_err_plain(self, body, bb, t):
         """The Option returned by the call at bb is only matched: every path from its `Some` edge assigns an Err to the return
         place before it can reach the code that follows the `None` edge, and its payload is read on those paths only."""
         if t["dst"]["p"]:
